@@ -37,7 +37,8 @@ def run(ctx):
     for i in range(n):
         vals = gen.records(rnd, 12)
         clean, noisy, regions = weave(rnd, vals, stats)
-        cfg0 = rnd.choice([lib.new_cfg(), lib.new_cfg(select=['.a', '.k=K']), lib.new_cfg(select=['&index=i', '&index-in-file=f', '.a']), lib.new_cfg(filter='(< &index 3)'), lib.new_cfg(filter='(!= .a 1)'), lib.new_cfg(sort=['.a']), lib.new_cfg(unique=True), lib.new_cfg(group='.k')])
+        cfg0 = rnd.choice([lib.new_cfg(), lib.new_cfg(select=['.a', '.k=K']), lib.new_cfg(select=['&index=i', '&index-in-file=f', '.a']), lib.new_cfg(filter='(< &index 3)'), lib.new_cfg(filter='(!= .a 1)'), lib.new_cfg(sort=['.a']), lib.new_cfg(unique=True), lib.new_cfg(group='.k'),
+                           lib.new_cfg(only_objs=True), lib.new_cfg(only_objs=True, select=['&index=i', '.a']), lib.new_cfg(split='.arr'), lib.new_cfg(set=['v=1'], select=[':v', '.a'])])
         for pol in ('ignore', 'stdout', 'stderr', 'panic'):
             cfg = clone_cfg(cfg0, on_error=pol)
             cases.append(mkcase('N%d%s' % (i, pol), cfg, noisy)); cases.append(mkcase('C%d%s' % (i, pol), cfg, clean))
